@@ -239,7 +239,9 @@ async def _fetch_finished(self, futures):
                     CTL.markers[jid] = lock
                 seen.append(jid)
             elif jid in CTL.markers:
-                os.unlink(CTL.markers.pop(jid))
+                m = CTL.markers.pop(jid)
+                if os.path.exists(m):
+                    os.unlink(m)
         CTL.steps.append(dict(done=done, vis=seen, npending=npend))
     return await _orig_fetch(self, futures)
 
@@ -282,6 +284,7 @@ def run_case(case):
     """case: dict(nodes, k (None = inf), fail [[nid, x]], oracle [...], mode 'async'|'sync'|'cf',
     n_procs, dur).  Returns the canonical observation."""
     mode = case.get("mode", "async")
+    os.chdir("/tmp")
     tmp = tempfile.mkdtemp(prefix="verif-sched-", dir="/tmp")
     obs = {}
     side = None
@@ -339,6 +342,7 @@ def run_case(case):
             obs["cf_peak"] = peak
             obs["cf_bodies"] = sorted((n, x) for _, kind, n, x in ev if kind == "enter")
     finally:
+        os.chdir("/tmp")   # Job.run may have been interrupted (watchdog) inside its cache directory
         for m in list(CTL.markers.values()):
             if os.path.exists(m):
                 os.unlink(m)
@@ -352,13 +356,16 @@ def main(argv):
     out = []
     import signal
 
+    class Watchdog(BaseException):
+        pass
+
     def _alarm(signum, frame):
-        raise TimeoutError("verif harness: case watchdog (60 s)")
+        raise Watchdog("verif harness: case watchdog")
 
     signal.signal(signal.SIGALRM, _alarm)
     for case in cases:
         try:
-            signal.alarm(90 if case.get("mode") == "cf" else 60)
+            signal.alarm(400 if case.get("mode") == "cf" else 150)
             try:
                 out.append(run_case(case))
             finally:
